@@ -15,8 +15,9 @@ for dp, dn, fn in os.walk(root):
             p = os.path.join(dp, f)
             rel = os.path.relpath(p, "/repo")
             tree = ast.parse(open(p).read())
-            gl.setdefault(rel, sorted(alpha.module_globals(tree)))
             from vk import canon
+            canon.normalise_imports(rel, tree)
+            gl.setdefault(rel, sorted(alpha.module_globals(tree)))
             # same order as vk/model.py: canonical idioms first, then the name signatures
             canon.normalise_idioms(tree)
             out[rel] = alpha.reference_for(tree)
